@@ -25,3 +25,4 @@ import checks_cfg
 CHECKS["C02"] = checks_cfg.c02
 CHECKS["C01"] = checks_cfg.c01
 CHECKS["C03"] = checks_cfg.c03
+CHECKS["C17"] = checks_cfg.c17
